@@ -57,7 +57,7 @@ def project_action(a):
 class Tripwire:
     """Counts calls to numpy.random.rand and reports any other entropy source."""
 
-    NP_OTHERS = ["randint", "choice", "random_sample", "random", "ranf", "sample", "poisson", "uniform",
+    NP_OTHERS = ["seed", "randint", "choice", "random_sample", "random", "ranf", "sample", "poisson", "uniform",
                  "normal", "randn", "shuffle", "permutation", "bytes", "standard_normal", "beta",
                  "binomial", "exponential", "dirichlet", "multinomial"]
     PY_OTHERS = ["random", "randint", "choice", "choices", "shuffle", "uniform", "randrange", "sample",
@@ -224,12 +224,12 @@ class Recorder:
             ev.update(extra)
         return self.emit(ev)
 
-    def reset(self, eid):
+    def reset(self, eid, seed=None):
         env = self.envs[eid]
         before = env.current_state.tensor.copy()
         with self.trip.scripted(0.5):
             try:
-                ret = env.reset()
+                ret = env.reset() if seed is None else env.reset(seed=seed)
             except Exception as exc:       # noqa
                 return self.raised(eid, "reset", exc, "C10", "reset_is_total")
         after = env.current_state.tensor
@@ -371,7 +371,12 @@ class Recorder:
             a = env.action_space.get_action(arg)
         except Exception as exc:   # noqa
             return self.raised(eid, "get_action", exc, "C11", "param_decodes_without_error", dict(vec=list(vec)))
-        return self.emit(dict(ev="decode", env=eid, vec=[int(x) for x in vec], enc=enc, got=project_action(a)))
+        try:
+            member = bool(a.is_noop() or any(a == b for b in env.action_space.actions))
+        except Exception:      # noqa
+            member = False
+        return self.emit(dict(ev="decode", env=eid, vec=[int(x) for x in vec], enc=enc, got=project_action(a),
+                              member_by_api_equality=member))
 
     def mask(self, eid):
         env = self.envs[eid]
